@@ -204,6 +204,12 @@ def _determine_project_root_for_context(ctx: click.Context) -> Path | None:
     config_path = ctx.obj.get("cli_config_path")
     verbose = ctx.obj.get("verbose", False)
 
+    # A linter command cannot run with a group-level --config that does not exist
+    # (`config set/reset` create that file, so the group callback itself must not check).
+    if config_path and not Path(config_path).exists():
+        click.echo(f"Error: Config file not found: {config_path}", err=True)
+        sys.exit(2)
+
     if explicit_root:
         return _resolve_explicit_project_root(explicit_root, verbose)
 
